@@ -6,6 +6,7 @@ import PPV.Model.NumOps
 import PPV.Gen.KernelRun
 import PPV.Gen.Idx
 import PPV.Model.AssembleRun
+import PPV.Model.OptionsRun
 
 open PPV
 
@@ -20,6 +21,9 @@ def handle (line : String) : String :=
     let rest := (line.trimAscii.toString.splitOn "::").getD 1 ""
     PPV.Model.Assemble.Run.handle mode n.toNat! b.toNat! rest
       PPV.Gen.IdxNode.ty_P PPV.Gen.IdxNode.ty_PC PPV.Gen.IdxBranch.ty_PC PPV.Gen.IdxNode.ty_T
+  | "options" :: numba :: fluid :: _ =>
+    let parts := line.trimAscii.toString.splitOn "::"
+    PPV.Model.Options.Run.handle numba fluid (parts.getD 1 "") (parts.getD 2 "")
   | _ => "bad-op"
 
 partial def loop (h : IO.FS.Stream) (out : IO.FS.Stream) : IO Unit := do
